@@ -316,6 +316,53 @@ pub fn loop_vars(t: &T, out: &mut Vec<String>) {
     }
 }
 
+/// Every identifier occurring anywhere in the tree (variables, loop variables, program names).
+pub fn ident_names(t: &T, out: &mut Vec<String>) {
+    let go = |x: &T, out: &mut Vec<String>| ident_names(x, out);
+    match t {
+        T::Lit(_) => {}
+        T::Id(n) => out.push(n.clone()),
+        T::Un { e, .. } | T::Paren(e) | T::Sel { e, .. } => go(e, out),
+        T::Bin { l, r, .. } => {
+            go(l, out);
+            go(r, out)
+        }
+        T::Tern { c, a, b } => {
+            go(c, out);
+            go(a, out);
+            go(b, out)
+        }
+        T::List(es) => es.iter().for_each(|e| go(e, out)),
+        T::Map(kv) => kv.iter().for_each(|(k, v)| {
+            go(k, out);
+            go(v, out)
+        }),
+        T::Idx { e, i } => {
+            go(e, out);
+            go(i, out)
+        }
+        T::Call { args, .. } => args.iter().for_each(|e| go(e, out)),
+        T::MCall { r, args, .. } => {
+            go(r, out);
+            args.iter().for_each(|e| go(e, out))
+        }
+        T::FStr(segs) => segs.iter().for_each(|s| {
+            if let Seg::Expr(e) = s {
+                go(e, out)
+            }
+        }),
+        T::Match { e, cases } => {
+            go(e, out);
+            for (p, e) in cases {
+                if let Pat::Cmp(_, v) = p {
+                    go(v, out)
+                }
+                go(e, out)
+            }
+        }
+    }
+}
+
 /// A value as a literal expression tree, if it has one.
 pub fn value_as_tree(v: &V) -> Option<T> {
     Some(match v {
